@@ -126,6 +126,7 @@ type reply struct {
 	Children   [][]int           `json:"children"`
 	Nontrivial int64             `json:"nontriv"`
 	TimedOut   bool              `json:"timedout"`
+	Known      map[string]string `json:"known,omitempty"`
 }
 
 var (
@@ -253,6 +254,12 @@ func (e *explorer) node(prefix []int, trace bool) [][]int {
 		if _, ok := e.rep.Obs[k]; !ok && len(e.rep.Obs) < 4096 {
 			e.rep.Obs[k] = clip(x.Obs, 600)
 		}
+		if len(x.Violations) > 0 && len(workerKnown) > 0 {
+			if e.rep.Known == nil {
+				e.rep.Known = map[string]string{}
+			}
+			x.Violations = splitKnown(x.Violations, workerKnown, e.rep.Known)
+		}
 		if len(x.Violations) > 0 {
 			v := Violation{Scenario: e.scn.Name, PB: e.pb, DB: e.db, Prefix: picks(r.Choices), Messages: x.Violations, Obs: clip(x.Obs, 2000)}
 			if trace {
@@ -329,8 +336,13 @@ func (e *explorer) dfs(prefix []int) {
 
 // ---- worker ----
 
+var workerKnown []Known
+
 func workerLoop(h *Harness, en *Enum) {
 	log.SetOutput(io.Discard)
+	if h != nil {
+		workerKnown = loadKnown(*flagKnown, h.Property)
+	}
 	debug.SetGCPercent(400)
 	in := bufio.NewReaderSize(os.Stdin, 1<<20)
 	out := bufio.NewWriter(os.Stdout)
@@ -419,8 +431,18 @@ func (t *tailBuf) String() string {
 
 func startWorker(budget float64) (*worker, error) {
 	args := []string{"-worker", "-tier", *flagTier, "-maxviol", fmt.Sprint(*flagMaxViol)}
+	// harness-specific flags are handed on unchanged
+	own := map[string]bool{"worker": true, "tier": true, "maxviol": true, "out": true, "procs": true, "budget": true, "replay": true, "known": true, "scn": true, "shm": true, "shmbits": true}
+	flag.Visit(func(f *flag.Flag) {
+		if !own[f.Name] {
+			args = append(args, "-"+f.Name+"="+f.Value.String())
+		}
+	})
 	if masterShm != nil {
 		args = append(args, "-shm", masterShm.file)
+	}
+	if *flagKnown != "" {
+		args = append(args, "-known", *flagKnown)
 	}
 	if budget > 0 {
 		args = append(args, "-budget", fmt.Sprint(budget))
@@ -621,6 +643,11 @@ scnLoop:
 					agg.Obs[k] = v
 				}
 				agg.Viol = append(agg.Viol, r.Viol...)
+				for k, v := range r.Known {
+					if _, ok := rep.Known[k]; !ok {
+						rep.Known[k] = v
+					}
+				}
 				if r.TimedOut {
 					agg.TimedOut = true
 				}
